@@ -115,9 +115,31 @@ def pc(cond: Term, pol: bool) -> tuple:
     return (cond, pol)
 
 
+def pcs(cond: Term, pol: bool) -> tuple:
+    """Canonical path-condition entries: negations stripped, a true conjunction / false
+    disjunction split into its atoms (so `if a and b:` and `if a:` + `if b:` agree)."""
+    cond, pol = pc(cond, pol)
+    if cond[0] == "bool" and ((cond[1] == "and" and pol) or (cond[1] == "or" and not pol)):
+        out = ()
+        for x in cond[2]:
+            out += pcs(x, pol)
+        return out
+    return ((cond, pol),)
+
+
 def phi_(cond: Term, a: Term, b: Term, tag: str = "phi") -> Term:
+    """Canonical join: no negated condition; conjunctions / disjunctions are expanded into
+    nested joins (normal form shared with nested if statements)."""
     while cond[0] == "u" and cond[1] == "not":
         cond, a, b = cond[2], b, a
+    if a == b:
+        return a
+    if cond[0] == "bool" and len(cond[2]) >= 2:
+        first, rest = cond[2][0], cond[2][1:]
+        rest_t = rest[0] if len(rest) == 1 else ("bool", cond[1], rest)
+        if cond[1] == "and":
+            return phi_(first, phi_(rest_t, a, b, tag), b, tag)
+        return phi_(first, a, phi_(rest_t, a, b, tag), tag)
     return (tag, cond, a, b)
 
 
@@ -348,6 +370,11 @@ class Evaluator:
         loc = ("s", base, idx)
         if loc in self.env.heap:
             return self.env.heap[loc]
+        # f(...)[i] with a constant index is the i-th component of the result: the same
+        # term as tuple unpacking  a, b = f(...)
+        if idx[0] == "c" and isinstance(idx[1], int) and not isinstance(idx[1], bool) \
+                and idx[1] >= 0 and base[0] in ("call", "fresh"):
+            return ("proj", base, idx[1])
         # projection of literal containers
         if base[0] in ("tuple", "list") and idx[0] == "c" and isinstance(idx[1], int):
             items = base[1]
@@ -665,10 +692,10 @@ class Evaluator:
     def s_If(self, st):
         cond = self.expr(st.test)
         base_env, base_cond = self.env, self.cond
-        self.env, self.cond = base_env.copy(), base_cond + (pc(cond, True),)
+        self.env, self.cond = base_env.copy(), base_cond + pcs(cond, True)
         f1 = self.block(st.body)
         e1 = self.env if f1 else None
-        self.env, self.cond = base_env.copy(), base_cond + (pc(cond, False),)
+        self.env, self.cond = base_env.copy(), base_cond + pcs(cond, False)
         f2 = self.block(st.orelse)
         e2 = self.env if f2 else None
         self.cond = base_cond
@@ -678,9 +705,9 @@ class Evaluator:
         self._join(cond, e1, e2)
         # after an early exit in one arm the surviving arm's condition persists
         if e1 is None:
-            self.cond = base_cond + (pc(cond, False),)
+            self.cond = base_cond + pcs(cond, False)
         elif e2 is None:
-            self.cond = base_cond + (pc(cond, True),)
+            self.cond = base_cond + pcs(cond, True)
 
     def _loop(self, st, it: Term | None, cond: Term | None):
         before = self.env.copy()
